@@ -167,6 +167,18 @@ def check_case(kind: str, t: str, a: int, b: int):
             return (tuple(s), tuple(e), (tuple(x), tuple(y)), s.line_col(), e.line_col())
 
         got = call(f)
+    elif kind == "pair_span":
+        # the span a pair hands out (the usual way to get one): every utility of it and of its two positions
+        exp = (spec_span_lines(t, a, b), t[a:b], spec_line_col(t, a), spec_line_col(t, b), spec_line_of(t, a), spec_line_of(t, b),
+               (a, b), (spec_line_col(t, a), spec_line_col(t, b)))
+
+        def g():
+            sp = Pair(t, a, b, _frame()).span()
+            s, e = sp.start_pos(), sp.end_pos()
+            x, y = sp.split()
+            return (sp.lines(), str(sp), s.line_col(), e.line_col(), s.line_of(), e.line_of(), (sp.start, sp.end), (x.line_col(), y.line_col()))
+
+        got = call(g)
     elif kind == "injective":
         # two different offsets must not share (line, column)
         exp = "different (line, column)"
@@ -265,6 +277,8 @@ def eval_text(t: str, spans, direct: bool):
                 bads.append(("span_str", t, a, b))
             if check_case("span_pos", t, a, b) is not None:
                 bads.append(("span_pos", t, a, b))
+            if check_case("pair_span", t, a, b) is not None:
+                bads.append(("pair_span", t, a, b))
     if direct:
         # second pass: the utilities are functions of (text, offset) — asking again after the
         # Span calls above (on an equal text value) must give the same answers
